@@ -84,7 +84,8 @@ def gen_class(rng, lang: str, idx: int, target_methods: int):
         if not members:
             add("    pass")
     elif lang == "ts":
-        add(f"class {name} {{")
+        form = rng.choice(["plain", "plain", "abstract", "expr", "export"])
+        add({"plain": f"class {name} {{", "abstract": f"abstract class {name} {{", "expr": f"const K_{idx} = class {name} {{", "export": f"export class {name} {{"}[form])
         for m in members:
             noise("  ")
             if m == "pub":
@@ -107,11 +108,13 @@ def gen_class(rng, lang: str, idx: int, target_methods: int):
                 add(f"    this.{nm('x')} = 1;")
             add("    return;" if m == "ctor" else "    return 1;")
             add("  }")
-        add("}")
+        add("};" if form == "expr" else "}")
     else:
         fields = [m for m in members if m == "field"]
         fns = [m for m in members if m != "field"]
-        add(f"struct {name} {{")
+        generic = rng.random() < 0.3
+        gp = "<T>" if generic else ""
+        add(f"struct {name}{gp} {{")
         for _ in fields:
             noise("    ")
             add(f"    {nm('field_')}: i32,")
@@ -123,11 +126,13 @@ def gen_class(rng, lang: str, idx: int, target_methods: int):
                 continue
             lines.append("")           # not part of any node
             kinds.append("outside")
-            add(f"impl {name} {{")
+            # an inherent impl, or (for the second block) the implementation of a trait: both belong to the struct
+            trait_impl = part is not fns[:split] and rng.random() < 0.5
+            add(f"impl{gp} Tr{idx} for {name}{gp} {{" if trait_impl else f"impl{gp} {name}{gp} {{")
             for m in part:
                 noise("    ")
                 if m == "pub":
-                    add(f"    pub fn {nm('act_')}(&self) -> i32 {{")
+                    add(f"    {'' if trait_impl else 'pub '}fn {nm('act_')}(&self) -> i32 {{")
                 elif m == "asyncPub":
                     add(f"    pub async fn {nm('co_')}(&self) -> i32 {{")
                 elif m == "priv":
